@@ -2,5 +2,7 @@ SPECIFICATION Spec
 CONSTANTS
   Dims = {2}
   MaxBins = 3
+  BinChoices = {1, 2, 3}
+  Scales = {0}
   Bounds <- DBounds
 INVARIANT ColMajorNeverDiffers
